@@ -122,7 +122,7 @@ def _strategy_feat(shapes):
         px_diag = Dx >= 2 and draw(st.sampled_from([False] * 4 + [True]))
         return {"Dx": Dx, "Dy": Dy, "Dk": Dk, "Rx": Rx, "kind": kind, "c": draw(gen.feature_params(kind, Dx, Dy, Dk)),
                 "px": {"Sigma": draw(gen.spd(Rx, Dx, kappa=6.0, lam_lo=0.15, lam_hi=0.4, diag=px_diag)), "mu": draw(gen.arr((Rx, Dx), -1.5, 1.5))},
-                "px_diag": px_diag, "x": draw(gen.arr((3, Dx), -2, 2)),
+                "px_diag": px_diag, "x": draw(gen.arr((3, Dx), -2, 2)), "x_int": draw(st.sampled_from([False] * 5 + [True])),
                 # objects with a past (a third of the cases each): the conditional is first built with another noise
                 # covariance, queried, and brought to the target with update_Sigma; p(x) is first handed to the conditional's
                 # transformations and then updated in place
@@ -172,7 +172,14 @@ def _run_feat(case):
     case = dict(case, px={"mu": mx_now, "Sigma": Sx_now})
     # read-out: conditional mean is the stated linear read-out of x and of unit-height bumps
     x = np.asarray(case["x"], float)
-    ok, d = lib(fails, f"{kind}.cond(x)", lambda: c(J(x)))
+    xj = J(x)
+    if case.get("x_int"):
+        # dtype regime: integer-valued query points passed as an integer array (grid points written as integers)
+        import jax.numpy as jnp
+
+        x = np.round(x)
+        xj = jnp.asarray(x.astype(np.int64))
+    ok, d = lib(fails, f"{kind}.cond(x)", lambda: c(xj))
     if ok:
         check(fails, f"{kind}:readout_mu", np.asarray(d.mu), mean_fn(x), 1 + np.abs(M).sum(1)[None] * (1 + np.abs(x).max()))
         check(fails, f"{kind}:readout_Sigma", np.asarray(d.Sigma), np.broadcast_to(S, (3, Dy, Dy)), np.abs(S).max() * np.ones((3, Dy, Dy)))
@@ -281,7 +288,7 @@ def _strategy_het(shapes):
                 "px_diag": px_diag,
                 "px": draw(gen.measure_params("diag_pdf" if px_diag else "pdf", Rx, Dx, draw(st.sampled_from([5.0, 30.0])))),
                 "upd": draw(gen.maybe_update("diag_pdf" if px_diag else "pdf", Rx, Dx, kappa=5.0, p=0.3)),
-                "x": draw(gen.arr((3, Dx), -2, 2))}
+                "x": draw(gen.arr((3, Dx), -2, 2)), "x_int": draw(st.sampled_from([False] * 5 + [True]))}
     return s()
 
 
@@ -307,10 +314,16 @@ def _run_het(case):
     case = dict(case, px={"mu": mx_now, "Sigma": Sx_now})
     # read-out of the object itself: mean Mx+b, covariance AA' + A_k diag(link(Wx+w0)) A_k'
     x = np.asarray(case["x"], float)
+    xj = J(x)
+    if case.get("x_int"):
+        import jax.numpy as jnp
+
+        x = np.round(x)
+        xj = jnp.asarray(x.astype(np.int64))
     h = x @ W[:, 1:].T + W[:, 0]
     Dl = libx.het_link(kind, h)
     Sx_ = AAt[None] + np.einsum("ik,nk,jk->nij", Ak, Dl, Ak)
-    ok, d = lib(fails, f"het[{kind}].cond(x)", lambda: c(J(x)))
+    ok, d = lib(fails, f"het[{kind}].cond(x)", lambda: c(xj))
     if ok:
         check(fails, f"het[{kind}]:readout_mu", np.asarray(d.mu), x @ M.T + b, 1 + np.abs(M).sum(1)[None] * (1 + np.abs(x).max()))
         check(fails, f"het[{kind}]:readout_Sigma", np.asarray(d.Sigma), Sx_, np.abs(Sx_).max((1, 2))[:, None, None] * np.ones_like(Sx_))
